@@ -43,3 +43,9 @@ META["C03"] = {
     "level_note": "oracle verifies partials itself with the harness-generated public polynomial; sync disabled so every Put is an aggregation",
     "technique": "runtime monitoring: wire tap + store tap, offline counting oracle over the recorded event log with forced delivery orders",
 }
+META["C04"] = {
+    "level": "exploration",
+    "level_text": "every partial that left an honest node in the explored executions (clock skews, bursts, stalls, restarts, catch-up mode, chain ahead of the local clock, parked tick handling) was stamped with the sender's own clock at or after its round's time; all validly signed partials for rounds beyond clock+1 were refused",
+    "level_note": "fake clocks move only when the harness moves them; TimeOfRound recomputed by the harness in integers",
+    "technique": "runtime monitoring: wire tap with an online timing oracle on per-node fake clocks, forced interleaving through a parking hook",
+}
